@@ -26,6 +26,9 @@ class Prop:
             return subjects_th.gen(rng, self.kind)
         return subjects.gen_history(rng, self.kind)
 
+    def valid(self, sc):
+        return subjects_th.valid(sc) if sc.get("mode") == "th" else True
+
     def execute(self, sc):
         if sc.get("mode") == "th":
             return subjects_th.execute(sc)
